@@ -20,12 +20,15 @@ pub enum Op {
     Sign,
     Pie,
     Pbkw,
+    /// the same wraps with a SECRET key as the wrapped key (other plaintext length)
+    PieSecret,
+    PbkwSecret,
     Pke,
     RandomLocal,
     RandomSecret,
 }
 
-const OPS: [Op; 7] = [Op::Encrypt, Op::Sign, Op::Pie, Op::Pbkw, Op::Pke, Op::RandomLocal, Op::RandomSecret];
+const OPS: [Op; 9] = [Op::Encrypt, Op::Sign, Op::Pie, Op::Pbkw, Op::PieSecret, Op::PbkwSecret, Op::Pke, Op::RandomLocal, Op::RandomSecret];
 
 struct Fixture<B: Backend> {
     lk: LocalKeyOf<B>,
@@ -82,6 +85,20 @@ fn run_op<B: Backend>(fx: &Fixture<B>, op: Op) -> Result<Out, PasetoError> {
             let b = body(&t);
             let tl = if ver.nist() { 48 } else { 32 };
             Ok(Out { fresh: vec![("nonce", b.get(tl..tl + 32).unwrap_or_default().to_vec())], text: t })
+        }
+        Op::PieSecret => {
+            let t = fx.sk.clone().wrap_pie(&fx.wk)?.to_string();
+            let b = body(&t);
+            let tl = if ver.nist() { 48 } else { 32 };
+            Ok(Out { fresh: vec![("nonce", b.get(tl..tl + 32).unwrap_or_default().to_vec())], text: t })
+        }
+        Op::PbkwSecret => {
+            let t = fx.sk.clone().password_wrap_with_params(b"password", &pw_params::<B>(&cheapest_params(ver)))?.to_string();
+            let b = body(&t);
+            match model::pbkw_split_blob(ver, &b) {
+                Ok(p) => Ok(Out { fresh: vec![("salt", p.salt), ("nonce", p.nonce)], text: t }),
+                Err(_) => Ok(Out { fresh: vec![("salt", Vec::new())], text: t }),
+            }
         }
         Op::Pbkw => {
             let t = fx.lk.clone().password_wrap_with_params(b"password", &pw_params::<B>(&cheapest_params(ver)))?.to_string();
@@ -144,13 +161,13 @@ fn field_from_draws<B: Backend>(fx: &Fixture<B>, op: Op, log: &[Draw], out: &Out
                 return Err(format!("{} draws for one encryption", ok.len()));
             }
         }
-        Op::Pie => {
+        Op::Pie | Op::PieSecret => {
             need(1, 32)?;
             if field("nonce") != ok[0].bytes {
                 return Err("PIE nonce is not the drawn value".into());
             }
         }
-        Op::Pbkw => {
+        Op::Pbkw | Op::PbkwSecret => {
             if ok.len() != 2 || ok[0].len != model::pbkw_salt_len(ver) || ok[1].len != model::pbkw_nonce_len(ver) {
                 return Err(format!("expected draws [salt {}, nonce {}], saw {:?}", model::pbkw_salt_len(ver), model::pbkw_nonce_len(ver), log.iter().map(|d| d.len).collect::<Vec<_>>()));
             }
@@ -221,8 +238,10 @@ fn history<B: Backend>(acc: &mut Acc, op: Op) {
     let v1 = B::VER == Ver::V1;
     let v3 = B::VER == Ver::V3;
     let n: usize = match op {
-        Op::Encrypt | Op::Pie | Op::RandomLocal => acc.tier.pick(20_000, 100_000),
-        Op::Pbkw => acc.tier.pick(5_000, 100_000),
+        Op::PieSecret if v1 => acc.tier.pick(2_000, 20_000),
+        Op::PbkwSecret if v1 => acc.tier.pick(1_000, 10_000),
+        Op::Encrypt | Op::Pie | Op::PieSecret | Op::RandomLocal => acc.tier.pick(20_000, 100_000),
+        Op::Pbkw | Op::PbkwSecret => acc.tier.pick(5_000, 100_000),
         Op::Sign if v1 => acc.tier.pick(300, 3_000),
         Op::Sign => acc.tier.pick(3_000, 100_000),
         Op::Pke if v1 => acc.tier.pick(100, 2_000),
@@ -425,7 +444,7 @@ pub fn def() -> PropertyDef {
     PropertyDef {
         id: "C16",
         level: "fault_enumeration",
-        rule: "(1) histories: per back end and operation kind {encrypt, sign (randomised signers), PIE wrap, password wrap, key seal, LocalKey::random, SecretKey::random} N consecutive operations with IDENTICAL keys and messages (N = 20000 / 5000 / 100..3000 for RSA- and ECDH-bound kinds in quick, up to 10^5 thorough); the nonce / salt / ephemeral key / signature / key of every output goes into a set: no repeats, no identical outputs; on getrandom back ends the draw log must show the draw(s) of the specified width and the output field must be the prescribed function of the drawn bytes (v3/v4 nonce = draw, v1/v2 nonce = MAC(draw, m), PBKW salt/nonce = draws, epk = [draw]G, c = r^e, generated key = draw); (2) fault sequences on getrandom back ends: for every operation kind and EVERY draw index it makes, the draw fails after filling 0, half or all of the buffer (including the extra draws of rejection-sampling retry paths, reached by scripting an all-ones / all-zero first candidate): the result must be Err (no panic, no output) and the next operation must succeed. Non-trivial iff the operation has a predecessor with identical inputs / an injected failure at index >= 1 or with a partially filled buffer",
+        rule: "(1) histories: per back end and operation kind {encrypt, sign (randomised signers), PIE wrap and password wrap (of a local and of a secret key), key seal, LocalKey::random, SecretKey::random} N consecutive operations with IDENTICAL keys and messages (N = 20000 / 5000 / 100..3000 for RSA- and ECDH-bound kinds in quick, up to 10^5 thorough); the nonce / salt / ephemeral key / signature / key of every output goes into a set: no repeats, no identical outputs; on getrandom back ends the draw log must show the draw(s) of the specified width and the output field must be the prescribed function of the drawn bytes (v3/v4 nonce = draw, v1/v2 nonce = MAC(draw, m), PBKW salt/nonce = draws, epk = [draw]G, c = r^e, generated key = draw); (2) fault sequences on getrandom back ends: for every operation kind and EVERY draw index it makes, the draw fails after filling 0, half or all of the buffer (including the extra draws of rejection-sampling retry paths, reached by scripting an all-ones / all-zero first candidate): the result must be Err (no panic, no output) and the next operation must succeed. Non-trivial iff the operation has a predecessor with identical inputs / an injected failure at index >= 1 or with a partially filled buffer",
         assumptions: vec![
             "aws-lc (RAND_bytes), libsodium (randombytes) and rsa::OsRng (getrandom 0.2) cannot be failed in-process; for them only the history part applies",
             "getrandom back ends draw from a seeded deterministic stream during histories (distinct per draw), so a repeat can only come from the library",
